@@ -758,6 +758,65 @@ def literal(ctx):
             literal_case(ctx, g, size, 100 + i, 0)
 
 
+def concurrent_case(ctx, i, k, n, ns, max_seg, sizes, seed):
+    """Several uploads of different sizes started back to back through ONE client and
+    running interleaved under the seeded scheduler; then each is read back."""
+    from core import grid as G
+    from twisted.internet import defer
+    from twisted.python.failure import Failure
+    datas = [make_data(sz, 9000 + 10 * i + j) for j, sz in enumerate(sizes)]
+    case = {"concurrent": True, "i": i, "k": k, "n": n, "servers": ns, "max_segment_size": max_seg, "sizes": list(sizes), "seed": seed}
+    with G.Grid(num_servers=ns, k=k, n=n, happy=1, max_segment_size=max_seg, seed=seed, timeout=120) as g:
+        def start():
+            ds = []
+            for d in datas:
+                ds.append(defer.maybeDeferred(g.upload, d, b"C01"))
+            return defer.DeferredList(ds, consumeErrors=True)
+        out = g.run(start, outcome=True)
+        ctx.case(("conc", i, k, n, ns, max_seg, tuple(sizes), seed), kind="grid-concurrent-uploads")
+        if out.status != "ok":
+            ctx.oracle_fail("concurrent-uploads-" + out.status, "%d concurrent uploads (%r bytes, %d-of-%d): %s %s" % (len(sizes), sizes, k, n, out.status, out.error),
+                            case=case, observed=out.hung_info)
+            return
+        for j, (ok, val) in enumerate(out.value):
+            jc = dict(case, which=j, size=sizes[j])
+            if not ok:
+                err = val.type.__name__ if isinstance(val, Failure) else str(val)
+                ctx.oracle_fail("concurrent-upload-fails:" + err, "upload %d (%d bytes) of %d concurrent uploads of %r bytes through one client (%d-of-%d, %d servers) fails: %s" % (
+                    j, sizes[j], len(sizes), sizes, k, n, ns, err), case=jc, observed=str(val)[-500:])
+                continue
+            cap = val
+            ctx.case(("conc-dl", i, j, seed), kind="grid-whole")
+            o2 = g.run(lambda: g.download(cap), outcome=True)
+            if o2.status != "ok" or o2.value != datas[j]:
+                ctx.oracle_fail("roundtrip-wrong-bytes" if o2.status == "ok" else "download-fails:" + str(o2.error),
+                                "file %d (%d bytes) of %d files uploaded concurrently (%r bytes, %d-of-%d, max segment %d) does not read back: %s %s" % (
+                                    j, sizes[j], len(sizes), sizes, k, n, max_seg, o2.status, o2.error), case=jc,
+                                observed=str(o2.failure)[-500:] if o2.failure else None)
+
+
+def concurrent(ctx):
+    for i in range(ctx.n(5, 40)):
+        r = ctx.rng("conc", i)
+        k = r.choice([1, 2, 3, 3, 5])
+        n = r.choice([k, k + 1, k + 2, 10])
+        ns = r.choice([1, n, n + 2, r.randrange(1, n + 3)])
+        max_seg = r.choice([16, 64, 100, 1024, 4096])
+        seg = -(-max_seg // k) * k
+        cnt = r.choice([2, 2, 3, 4])
+        sizes = []
+        for attempt in range(40):
+            if len(sizes) >= cnt:
+                break
+            sz = seg * r.choice([1, 2, 3, 5, 9]) + r.choice([0, 1, -1, k, seg // 2])
+            if sz < 56 or attempt > 20:
+                sz = r.randrange(56, max(60, min(3000, seg * 30)))
+            sz = min(sz, 20000)
+            if sz not in sizes:
+                sizes.append(sz)
+        concurrent_case(ctx, i, k, n, ns, max_seg, sizes, r.getrandbits(30))
+
+
 def corpus(ctx):
     import glob
     import json
@@ -774,6 +833,7 @@ def run(ctx):
     segmentation(ctx)
     ctr(ctx)
     literal(ctx)
+    concurrent(ctx)
     grid(ctx)
 
 
@@ -795,6 +855,9 @@ def replay(ctx, record):
         model = ctx.coq_eval(IMPORTS, "let s := upload_segsize %s %s %s in (s, encoder_params %s %s s, calculate_sizes %s %s s)" % (
             T.N(case["max_segment_size"]), T.N(case["size"]), T.N(case["k"]), T.N(case["size"]), T.N(case["k"]), T.N(case["size"]), T.N(case["k"])))
         return {"implementation": got, "model": model}
+    if case.get("concurrent"):
+        concurrent_case(ctx, case["i"], case["k"], case["n"], case["servers"], case["max_segment_size"], case["sizes"], case["seed"])
+        return {"sizes": case["sizes"], "failures": [f["kind"] for f in ctx.failures]}
     if case.get("literal_stream"):
         from core import grid as G
         with G.Grid(num_servers=case["servers"], k=3, n=10, happy=1, max_segment_size=128, seed=case.get("seed", 0), timeout=60) as g:
